@@ -29,16 +29,18 @@ func init() {
 }
 
 func (p *c06) Rule() string {
-	return "even cases: generated scenario with 2-6 query-based groups over every queryable property, starting contacts whose stored membership may be wrong, flows/triggers/resumes that change each property by every route; after every engine call that returns a session: for every query group, membership == (contact active && query matches) under the session environment or the merged (contact timezone) environment, a contact that became non-active is in no static group, and the net group delta equals the net effect of the contact_groups_changed events. odd cases: one contact x 12 modifiers through modifiers.Apply with the same checks. Non-trivial = a query group's membership changed or was wrong at the start; distinct = SHA of the scenario / (contact, modifiers)."
+	return "even cases: generated scenario with 2-6 query-based groups over every queryable property, starting contacts whose stored membership may be wrong, flows/triggers/resumes that change each property by every route; after every engine call that returns a session: for every query group, membership == (contact active && query matches) under the session environment or the merged (contact timezone) environment, a contact that became non-active is in no static group, and the net group delta equals the net effect of the contact_groups_changed events. odd cases: one contact x 12 modifiers through modifiers.Apply with the same checks. In addition (own random stream): 30% of the even cases re-use ONE loaded contact for 2-4 operations on copies of it (start the flow again through a trigger built around it, clone + modifiers, modifiers on the contact itself), half of them with stored field values whose typed parts are not what their text parses to; 40% of the odd cases run such a contact through modifiers that set a field to the text it already has; every 50th case lets 4-8 goroutines make their first group re-evaluation (ReevaluateGroups / modifiers.Apply / NewSession) over the same freshly created session assets with 150-400 query groups, 3 rounds. Non-trivial = a query group's membership changed or was wrong at the start; distinct = SHA of the scenario / (contact, modifiers)."
 }
 
 func (p *c06) Directed() []string {
-	return []string{"msg-trigger-last-seen-group", "msg-resume-last-seen-group", "ticket-group", "field-flips-group", "status-clears-static", "wrong-stored-membership", "urn-group", "refresh-changes-groups"}
+	return []string{"msg-trigger-last-seen-group", "msg-resume-last-seen-group", "ticket-group", "field-flips-group", "status-clears-static", "wrong-stored-membership", "urn-group", "refresh-changes-groups",
+		"stale-typed-same-text-action", "shared-contact-wrong-stored-membership", "shared-contact-flow-changes-membership", "stale-typed-same-text-modifier", "concurrent-first-use-modifiers", "concurrent-first-use-sessions"}
 }
 
 func (p *c06) Floors(tier string) []string {
 	return []string{"clause.membership", "clause.membership_in", "clause.membership_out", "clause.nonactive_static", "clause.delta_vs_events", "clause.reference_membership", "seen.membership_changed", "seen.wrong_at_start",
-		"route.msg_received", "route.contact_field_changed", "route.contact_status_changed", "route.ticket_opened", "route.contact_urns_changed", "route.contact_name_changed", "route.contact_language_changed", "mods.applied"}
+		"route.msg_received", "route.contact_field_changed", "route.contact_status_changed", "route.ticket_opened", "route.contact_urns_changed", "route.contact_name_changed", "route.contact_language_changed", "mods.applied",
+		"shared.second_sessions", "shared.clones_modified", "shared.original_modified", "stale_typed.same_text_changed_value", "concurrent.first_evaluations"}
 }
 
 // checkMembership evaluates the invariant on a live contact. envsToTry: membership must match under at least one.
@@ -47,8 +49,12 @@ func checkMembership(res *fw.Result, sa flows.SessionAssets, contact *flows.Cont
 		if !g.UsesQuery() {
 			continue
 		}
-		in := contact.Groups().FindByUUID(g.UUID()) != nil
-		ok := false
+		// "belongs to" is observed both ways a caller can: by walking the contact's group list (what is marshalled) and by
+		// looking the group up; the two are judged separately, so a lookup that answers from something other than the list
+		// cannot hide a wrong list (or the other way round)
+		held, found := heldInList(contact, g), contact.Groups().FindByUUID(g.UUID()) != nil
+		in := held > 0
+		ok, okFound := false, false
 		var should []bool
 		for _, e := range envsToTry {
 			s := g.CheckQueryBasedMembership(e, contact)
@@ -56,6 +62,15 @@ func checkMembership(res *fw.Result, sa flows.SessionAssets, contact *flows.Cont
 			if s == in {
 				ok = true
 			}
+			if s == found {
+				okFound = true
+			}
+		}
+		if found != in {
+			res.Count("seen.lookup_differs_from_list", 1)
+		}
+		if ok && !okFound {
+			ok, in = false, found
 		}
 		res.Count("clause.membership", 1)
 		if in {
@@ -115,7 +130,7 @@ func checkReference(res *fw.Result, sa flows.SessionAssets, contact *flows.Conta
 			res.Count("reference.unparsed", 1)
 			continue
 		}
-		in := contact.Groups().FindByUUID(g.UUID()) != nil
+		in := heldInList(contact, g) > 0
 		known, agree := false, false
 		var refs []bool
 		for _, tz := range tzs {
@@ -145,16 +160,150 @@ func checkReference(res *fw.Result, sa flows.SessionAssets, contact *flows.Conta
 func (p *c06) Run(c fw.Case) fw.Result {
 	res := fw.Result{}
 	r := fw.NewRand(c.Seed, "C06", c.Index)
+	// r2 drives the history shapes that are run in addition to the case's own (shared contact, stale typed parts,
+	// concurrent first use): a stream of its own, so that what r generates does not depend on them
+	r2 := fw.NewRand(c.Seed, "C06+", c.Index)
 	switch {
 	case c.Directed != "":
-		p.engine(&res, p.directed(c.Directed), c)
+		if !p.directedShape(&res, r2, c) {
+			p.engine(&res, p.directed(c.Directed), c)
+		}
 	case c.Gen%2 == 0:
 		o := gen.ScenOpts{ContactChanges: true, QueryGroups: true, MaxNodes: r.Range(2, 6)}
-		p.engine(&res, gen.Scen(r, o), c)
+		scen := gen.Scen(r, o)
+		rn := p.engine(&res, scen, c)
+		if rn == nil || res.Discarded != "" {
+			break
+		}
+		contactM := copyM(asM(scen.Trigger["contact"]))
+		if contactM == nil {
+			break
+		}
+		if r2.Chance(0.3) {
+			if r2.Chance(0.5) && staleTypedParts(r2, contactM, scen.Assets) > 0 {
+				res.Count("shared.contacts_with_stale_typed_parts", 1)
+			}
+			n := r2.Range(2, 4)
+			ops := ""
+			for i := 0; i < n; i++ {
+				ops += fw.Pick(r2, []string{"s", "s", "m", "c", "o"})
+			}
+			p.sharedPhase(&res, r2, scen, rn, contactM, ops, r2.Chance(0.5))
+		}
+		if c.Gen%50 == 8 {
+			modes := []string{"reevaluate", "modifier", "session"}
+			fw.Shuffle(r2, modes)
+			p.concurrentPhase(&res, r2, scen, contactM, r2.Range(4, 8), 3, r2.Range(0, 200), r2.Range(150, 400), modes)
+		}
 	default:
-		p.mods(&res, r, c)
+		scen, rn := p.mods(&res, r, c)
+		if rn == nil || res.Discarded != "" {
+			break
+		}
+		if contactM := asM(scen.Trigger["contact"]); contactM != nil && r2.Chance(0.4) {
+			p.staleTypedPhase(&res, r2, scen, rn, contactM, r2.Range(3, 5))
+		}
 	}
 	return res
+}
+
+// directedShape runs the directed cases of the additional history shapes; false = name is an ordinary engine scenario.
+func (p *c06) directedShape(res *fw.Result, r2 *fw.Rand, c fw.Case) bool {
+	d := dsl
+	flowA := func(actions ...any) gen.M {
+		return d.BaseAssets(d.Flow("A", "messaging", d.Node("a0", actions, nil, d.Exit("a0x", "a1")), d.WaitNode("a1", "", nil)))
+	}
+	load := func(scen *gen.Scenario) *drive.Runner {
+		res.Fingerprint = c.Directed + "|" + scen.Fingerprint()
+		rn, err := drive.Load(scen, c.Seed)
+		if err != nil {
+			res.Discarded = "unloadable: " + errClass(err.Error())
+			return nil
+		}
+		return rn
+	}
+	grp := func(names ...string) []gen.M {
+		keys := map[string]string{"Testers": "testers", "Customers": "customers", "Adults": "adults", "Seen": "seen", "Ticketed": "ticketed", "Bobs": "bobs", "With Tel": "tel", "English": "eng"}
+		var out []gen.M
+		for _, n := range names {
+			out = append(out, gen.M{"uuid": gen.NamedUUID("group:" + keys[n]), "name": n})
+		}
+		return out
+	}
+	switch c.Directed {
+	case "shared-contact-wrong-stored-membership":
+		// stored membership is wrong; the flow changes nothing: every start has to put its own copy right
+		ct := d.Contact()
+		ct["groups"] = grp("Testers", "Ticketed", "Seen")
+		scen := &gen.Scenario{Assets: flowA(d.SendMsg("m", "hi")), Trigger: d.Manual("A", ct), Resumes: []gen.M{d.MsgResume(0, "x")}}
+		if rn := load(scen); rn != nil {
+			p.sharedPhase(res, r2, scen, rn, copyM(ct), "ssmco", true)
+		}
+	case "shared-contact-flow-changes-membership":
+		// stored membership is right; the flow moves the contact out of two query groups and into none
+		ct := d.Contact()
+		ct["groups"] = grp("Testers", "Adults", "Bobs", "With Tel", "English")
+		scen := &gen.Scenario{Assets: flowA(d.Action("l", "set_contact_language", gen.M{"language": "spa"}), d.Action("f", "set_contact_field", gen.M{"field": gen.M{"key": "age", "name": "Age"}, "value": "12"})),
+			Trigger: d.Manual("A", ct), Resumes: []gen.M{d.MsgResume(0, "x")}}
+		if rn := load(scen); rn != nil {
+			p.sharedPhase(res, r2, scen, rn, copyM(ct), "smsoc", true)
+		}
+	case "stale-typed-same-text-modifier":
+		// number / datetime / state fields stored as text only, or with the typed part of another text; each is set again to
+		// the text it has
+		ct := d.Contact()
+		ct["fields"] = gen.M{"age": gen.M{"text": "41"}, "joined": gen.M{"text": "2018-05-05T10:00:00Z", "datetime": "2016-02-29T12:00:00Z"}, "state": gen.M{"text": "Kigali"}, "gender": gen.M{"text": "male"}}
+		ct["groups"] = grp("Testers", "Bobs", "With Tel", "English")
+		as := flowA(d.SendMsg("m", "hi"))
+		as["groups"] = append(as["groups"].([]gen.M), gen.M{"uuid": gen.NamedUUID("group:noage"), "name": "No Age", "query": `age = ""`}, gen.M{"uuid": gen.NamedUUID("group:joined18"), "name": "Joined 2018", "query": `joined > "2018-01-01"`},
+			gen.M{"uuid": gen.NamedUUID("group:instate"), "name": "In State", "query": `state != ""`})
+		scen := &gen.Scenario{Assets: as, Trigger: d.Manual("A", ct)}
+		rn := load(scen)
+		if rn == nil {
+			break
+		}
+		cj, _ := json.Marshal(ct)
+		contact, err := flows.ReadContact(rn.SA, cj, func(assets.Reference, error) {})
+		if err != nil {
+			res.Discarded = "unreadable contact: " + errClass(err.Error())
+			break
+		}
+		res.Count("stale_typed.contacts", 1)
+		env := scenEnv(scen)
+		modifiers.ReevaluateGroups(env, contact, func(flows.Event) {})
+		var descs []string
+		for _, key := range []string{"age", "joined", "state", "gender", "age"} {
+			f := rn.SA.Fields().Get(key)
+			text := contact.Fields()[key].Text.Native()
+			ms := modSpec{"field", fmt.Sprintf("field %s=%s (same text)", key, text), modifiers.NewField(f, text)}
+			descs = append(descs, ms.desc)
+			before := marshalJSON(contact)
+			res.Count("stale_typed.same_text_mods", 1)
+			if !p.applyModChecked(res, rn, env, contact, ms, func(extra map[string]any) {
+				extra["assets"] = scen.Assets
+				extra["start_contact"] = json.RawMessage(cj)
+				extra["modifiers_in_order"] = append([]string{}, descs...)
+			}, "") {
+				break
+			}
+			if string(before) != string(marshalJSON(contact)) {
+				res.Count("stale_typed.same_text_changed_value", 1)
+			}
+		}
+	case "concurrent-first-use-modifiers", "concurrent-first-use-sessions":
+		scen := &gen.Scenario{Assets: flowA(d.SendMsg("m", "hi")), Trigger: d.Manual("A", nil)}
+		if load(scen) == nil {
+			break
+		}
+		modes := []string{"reevaluate", "modifier"}
+		if c.Directed == "concurrent-first-use-sessions" {
+			modes = []string{"session"}
+		}
+		p.concurrentPhase(res, r2, scen, copyM(d.Contact()), 8, 8, 200, 300, modes)
+	default:
+		return false
+	}
+	return true
 }
 
 func (p *c06) directed(name string) *gen.Scenario {
@@ -183,6 +332,16 @@ func (p *c06) directed(name string) *gen.Scenario {
 		ct["urns"] = []string{}
 		delete(ct, "urns")
 		return &gen.Scenario{Assets: one(act("u", "add_contact_urn", gen.M{"scheme": "tel", "path": "+12065553333"})), Trigger: d.Manual("A", ct), Resumes: []gen.M{d.MsgResume(0, "x"), d.MsgResume(1, "y")}}
+	case "stale-typed-same-text-action":
+		// the stored number is not what the text parses to; the flow sets the field to the text it already has (at the start
+		// and again after a message)
+		ct := d.Contact()
+		ct["fields"] = gen.M{"age": gen.M{"text": "41", "number": 7}, "joined": gen.M{"text": "2018-05-05T10:00:00Z"}}
+		same := func(n string) gen.M {
+			return act(n, "set_contact_field", gen.M{"field": gen.M{"key": "age", "name": "Age"}, "value": "41"})
+		}
+		return &gen.Scenario{Assets: d.BaseAssets(d.Flow("A", "messaging", d.Node("a0", []any{same("f0")}, nil, d.Exit("a0x", "a1")), d.WaitNode("a1", "a2", nil), d.Node("a2", []any{same("f2")}, nil, d.Exit("a2x", "a3")), d.WaitNode("a3", "", nil))),
+			Trigger: d.Manual("A", ct), Resumes: []gen.M{d.MsgResume(0, "x"), d.MsgResume(1, "y")}}
 	case "refresh-changes-groups":
 		nc := d.Contact()
 		nc["fields"] = gen.M{"age": gen.M{"text": "12", "number": 12}}
@@ -194,12 +353,12 @@ func (p *c06) directed(name string) *gen.Scenario {
 	return nil
 }
 
-func (p *c06) engine(res *fw.Result, scen *gen.Scenario, c fw.Case) {
+func (p *c06) engine(res *fw.Result, scen *gen.Scenario, c fw.Case) *drive.Runner {
 	res.Fingerprint = scen.Fingerprint()
 	rn, err := drive.Load(scen, c.Seed)
 	if err != nil {
 		res.Discarded = "unloadable: " + errClass(err.Error())
-		return
+		return nil
 	}
 	var startContact []byte
 	if cj, err := json.Marshal(scen.Trigger["contact"]); err == nil {
@@ -215,111 +374,117 @@ func (p *c06) engine(res *fw.Result, scen *gen.Scenario, c fw.Case) {
 			}
 		}
 	}
-	rn.RunAll(func(rec *drive.CallRecord) {
-		observeCommon(res, rec)
-		if !rec.OK() || rec.Kind == "unreadable" || rec.Session == nil || rec.Session.Contact() == nil {
-			return
-		}
-		s := rec.Session
-		entry := rec.Kind
-		if rec.Kind == "resume" {
-			entry += ":" + rec.ResumeType
-		} else if rec.Trigger != nil {
-			entry += ":" + rec.Trigger.Type()
-		}
-		viol := func(sig, what string, extra map[string]any) {
-			extra["call_index"] = rec.Index
-			extra["entry"] = entry
-			extra["contact_after"] = string(rec.ContactAfter)
-			res.Violate(sig+"|"+entry, what, witnessOf(scen, extra))
-		}
-		checkMembership(res, rn.SA, s.Contact(), []envs.Environment{s.Environment(), s.MergedEnvironment()}, viol)
-		checkReference(res, rn.SA, s.Contact(), []*time.Location{s.Environment().Timezone(), s.MergedEnvironment().Timezone()}, viol)
-
-		before := rec.ContactBefore
-		if rec.Kind == "start" {
-			before = startContact
-		}
-		refreshed := false
-		for _, e := range rec.Sprint.Events() {
-			switch e.Type() {
-			case "contact_refreshed":
-				refreshed = true
-			case "msg_received", "contact_field_changed", "contact_status_changed", "ticket_opened", "contact_urns_changed", "contact_name_changed", "contact_language_changed":
-				res.Count("route."+e.Type(), 1)
-			}
-		}
-		if before == nil {
-			return
-		}
-		bm := decodeContact(before)
-		am := decodeContact(rec.ContactAfter)
-		statusOf := func(m contactModel) string {
-			if s, _ := m["status"].(string); s != "" {
-				return s
-			}
-			return "active"
-		}
-		// non-active ⇒ no static groups (for contacts that became non-active in this sprint)
-		if statusOf(am) != "active" && statusOf(bm) == "active" && !refreshed {
-			res.Count("clause.nonactive_static", 1)
-			for _, g := range s.Contact().Groups().All() {
-				if !g.UsesQuery() {
-					viol("C06|nonactive-contact-in-static-group", fmt.Sprintf("contact became %s but is still in static group %q", statusOf(am), g.Name()), map[string]any{"group": g.Name()})
-				}
-			}
-		}
-		// net delta vs events
-		res.Count("clause.delta_vs_events", 1)
-		model := bm
-		for i, e := range rec.Sprint.Events() {
-			if e.Type() == "contact_groups_changed" || e.Type() == "contact_refreshed" {
-				var ev map[string]any
-				d := json.NewDecoder(bytes.NewReader(rec.EventsJSON[i]))
-				d.UseNumber()
-				d.Decode(&ev)
-				model = model.applyEvent(ev, "", nil)
-			}
-		}
-		want, got := groupIDs(model), groupIDs(am)
-		if len(want) != len(got) || func() bool {
-			for k := range want {
-				if !got[k] {
-					return true
-				}
-			}
-			return false
-		}() {
-			viol("C06|group-delta-not-reported", "net change of group membership in the sprint differs from the net effect of its contact_groups_changed events", map[string]any{"contact_before": string(before)})
-		}
-		if fmt.Sprint(groupIDs(bm)) != fmt.Sprint(got) {
-			res.Count("seen.membership_changed", 1)
-			res.NonTrivial = true
-		}
-	})
+	rn.RunAll(func(rec *drive.CallRecord) { p.checkRecord(res, scen, rn, rec, startContact, "") })
 	if len(rn.Log) > 0 && rn.Log[0].Kind == "unreadable" {
 		res.Discarded = "unreadable trigger: " + errClass(rn.Log[0].Err.Error())
-		return
+		return nil
 	}
 	if res.NonTrivial {
 		res.Sample = scenSample(scen, rn)
 	}
+	return rn
 }
 
-func (p *c06) mods(res *fw.Result, r *fw.Rand, c fw.Case) {
+// checkRecord judges one engine call that handed back a session. startContact is the contact JSON the session was started
+// from (used as "before" for a start); shape prefixes the engine entry in signatures when the call is part of a history
+// shape other than one session over a freshly read contact.
+func (p *c06) checkRecord(res *fw.Result, scen *gen.Scenario, rn *drive.Runner, rec *drive.CallRecord, startContact []byte, shape string) {
+	observeCommon(res, rec)
+	if !rec.OK() || rec.Kind == "unreadable" || rec.Session == nil || rec.Session.Contact() == nil {
+		return
+	}
+	s := rec.Session
+	entry := shape + rec.Kind
+	if rec.Kind == "resume" {
+		entry += ":" + rec.ResumeType
+	} else if rec.Trigger != nil {
+		entry += ":" + rec.Trigger.Type()
+	}
+	viol := func(sig, what string, extra map[string]any) {
+		extra["call_index"] = rec.Index
+		extra["entry"] = entry
+		extra["contact_after"] = string(rec.ContactAfter)
+		res.Violate(sig+"|"+entry, what, witnessOf(scen, extra))
+	}
+	checkMembership(res, rn.SA, s.Contact(), []envs.Environment{s.Environment(), s.MergedEnvironment()}, viol)
+	checkReference(res, rn.SA, s.Contact(), []*time.Location{s.Environment().Timezone(), s.MergedEnvironment().Timezone()}, viol)
+
+	before := rec.ContactBefore
+	if rec.Kind == "start" {
+		before = startContact
+	}
+	refreshed := false
+	for _, e := range rec.Sprint.Events() {
+		switch e.Type() {
+		case "contact_refreshed":
+			refreshed = true
+		case "msg_received", "contact_field_changed", "contact_status_changed", "ticket_opened", "contact_urns_changed", "contact_name_changed", "contact_language_changed":
+			res.Count("route."+e.Type(), 1)
+		}
+	}
+	if before == nil {
+		return
+	}
+	bm := decodeContact(before)
+	am := decodeContact(rec.ContactAfter)
+	statusOf := func(m contactModel) string {
+		if s, _ := m["status"].(string); s != "" {
+			return s
+		}
+		return "active"
+	}
+	// non-active ⇒ no static groups (for contacts that became non-active in this sprint)
+	if statusOf(am) != "active" && statusOf(bm) == "active" && !refreshed {
+		res.Count("clause.nonactive_static", 1)
+		for _, g := range s.Contact().Groups().All() {
+			if !g.UsesQuery() {
+				viol("C06|nonactive-contact-in-static-group", fmt.Sprintf("contact became %s but is still in static group %q", statusOf(am), g.Name()), map[string]any{"group": g.Name()})
+			}
+		}
+	}
+	// net delta vs events
+	res.Count("clause.delta_vs_events", 1)
+	model := bm
+	for i, e := range rec.Sprint.Events() {
+		if e.Type() == "contact_groups_changed" || e.Type() == "contact_refreshed" {
+			var ev map[string]any
+			d := json.NewDecoder(bytes.NewReader(rec.EventsJSON[i]))
+			d.UseNumber()
+			d.Decode(&ev)
+			model = model.applyEvent(ev, "", nil)
+		}
+	}
+	want, got := groupIDs(model), groupIDs(am)
+	if len(want) != len(got) || func() bool {
+		for k := range want {
+			if !got[k] {
+				return true
+			}
+		}
+		return false
+	}() {
+		viol("C06|group-delta-not-reported", "net change of group membership in the sprint differs from the net effect of its contact_groups_changed events", map[string]any{"contact_before": string(before)})
+	}
+	if fmt.Sprint(groupIDs(bm)) != fmt.Sprint(got) {
+		res.Count("seen.membership_changed", 1)
+		res.NonTrivial = true
+	}
+}
+
+func (p *c06) mods(res *fw.Result, r *fw.Rand, c fw.Case) (*gen.Scenario, *drive.Runner) {
 	o := gen.ScenOpts{QueryGroups: true, MaxNodes: 1}
 	scen := gen.Scen(r, o)
 	scen.Resumes = nil
 	rn, err := drive.Load(scen, c.Seed)
 	if err != nil {
 		res.Discarded = "unloadable: " + errClass(err.Error())
-		return
+		return nil, nil
 	}
 	cj, _ := json.Marshal(scen.Trigger["contact"])
 	contact, err := flows.ReadContact(rn.SA, cj, func(assets.Reference, error) {})
 	if err != nil {
 		res.Discarded = "unreadable contact: " + errClass(err.Error())
-		return
+		return nil, nil
 	}
 	env := gen.Env(r)
 	// the statement speaks about the state *after* a modifier; bring the stored membership in line first, as a caller
@@ -333,64 +498,78 @@ func (p *c06) mods(res *fw.Result, r *fw.Rand, c fw.Case) {
 	}
 	res.Fingerprint = string(cj) + "|" + strings.Join(descs, ";")
 	for i, ms := range mods {
-		before := marshalJSON(contact)
-		statusBefore := contact.Status()
-		var evs []flows.Event
-		var pan any
-		var modified bool
-		func() {
-			defer func() { pan = recover() }()
-			modified = modifiers.Apply(rn.Eng, env, rn.SA, contact, ms.mod, func(e flows.Event) { evs = append(evs, e) })
-		}()
-		if pan != nil {
-			res.Count("modifier_panics", 1)
-			break
-		}
-		res.Count("mods.applied", 1)
-		after := marshalJSON(contact)
-		viol := func(sig, what string, extra map[string]any) {
+		if !p.applyModChecked(res, rn, env, contact, ms, func(extra map[string]any) {
 			extra["assets"] = scen.Assets
 			extra["start_contact"] = json.RawMessage(cj)
 			extra["modifiers_in_order"] = descs[:i+1]
-			extra["contact_before"] = string(before)
-			extra["contact_after"] = string(after)
-			extra["modified"] = modified
-			res.Violate(sig+"|modifier:"+ms.kind, what, extra)
-		}
-		checkMembership(res, rn.SA, contact, []envs.Environment{env}, viol)
-		checkReference(res, rn.SA, contact, []*time.Location{env.Timezone()}, viol)
-		if contact.Status() != flows.ContactStatusActive && statusBefore == flows.ContactStatusActive {
-			res.Count("clause.nonactive_static", 1)
-			for _, g := range contact.Groups().All() {
-				if !g.UsesQuery() {
-					viol("C06|nonactive-contact-in-static-group", fmt.Sprintf("contact became %s but is still in static group %q", contact.Status(), g.Name()), map[string]any{"group": g.Name()})
-				}
-			}
-		}
-		res.Count("clause.delta_vs_events", 1)
-		model := decodeContact(before)
-		for _, e := range evs {
-			if e.Type() == "contact_groups_changed" {
-				var ev map[string]any
-				d := json.NewDecoder(bytes.NewReader(marshalJSON(e)))
-				d.UseNumber()
-				d.Decode(&ev)
-				model = model.applyEvent(ev, "", nil)
-			}
-			switch e.Type() {
-			case "contact_field_changed", "contact_status_changed", "ticket_opened", "contact_urns_changed", "contact_name_changed", "contact_language_changed":
-				res.Count("route."+e.Type(), 1)
-			}
-		}
-		if fmt.Sprint(groupIDs(model)) != fmt.Sprint(groupIDs(decodeContact(after))) {
-			viol("C06|group-delta-not-reported", "net change of group membership made by modifiers.Apply differs from the net effect of its contact_groups_changed events", map[string]any{})
-		}
-		if fmt.Sprint(groupIDs(decodeContact(before))) != fmt.Sprint(groupIDs(decodeContact(after))) {
-			res.Count("seen.membership_changed", 1)
-			res.NonTrivial = true
+		}, "") {
+			break
 		}
 	}
 	if res.NonTrivial {
 		res.Sample = map[string]any{"kind": "modifiers", "contact": json.RawMessage(cj), "modifiers": descs}
 	}
+	return scen, rn
+}
+
+// applyModChecked applies one modifier through modifiers.Apply and judges the contact afterwards (membership by the library
+// evaluator and by the reference, static groups of a contact that became non-active, net group change against the
+// contact_groups_changed events). context adds what the witness needs to replay the history; shape prefixes the entry in
+// signatures. Returns false when the modifier panicked.
+func (p *c06) applyModChecked(res *fw.Result, rn *drive.Runner, env envs.Environment, contact *flows.Contact, ms modSpec, context func(extra map[string]any), shape string) bool {
+	before := marshalJSON(contact)
+	statusBefore := contact.Status()
+	var evs []flows.Event
+	var pan any
+	var modified bool
+	func() {
+		defer func() { pan = recover() }()
+		modified = modifiers.Apply(rn.Eng, env, rn.SA, contact, ms.mod, func(e flows.Event) { evs = append(evs, e) })
+	}()
+	if pan != nil {
+		res.Count("modifier_panics", 1)
+		return false
+	}
+	res.Count("mods.applied", 1)
+	after := marshalJSON(contact)
+	viol := func(sig, what string, extra map[string]any) {
+		context(extra)
+		extra["contact_before"] = string(before)
+		extra["contact_after"] = string(after)
+		extra["modified"] = modified
+		res.Violate(sig+"|"+shape+"modifier:"+ms.kind, what, extra)
+	}
+	checkMembership(res, rn.SA, contact, []envs.Environment{env}, viol)
+	checkReference(res, rn.SA, contact, []*time.Location{env.Timezone()}, viol)
+	if contact.Status() != flows.ContactStatusActive && statusBefore == flows.ContactStatusActive {
+		res.Count("clause.nonactive_static", 1)
+		for _, g := range contact.Groups().All() {
+			if !g.UsesQuery() {
+				viol("C06|nonactive-contact-in-static-group", fmt.Sprintf("contact became %s but is still in static group %q", contact.Status(), g.Name()), map[string]any{"group": g.Name()})
+			}
+		}
+	}
+	res.Count("clause.delta_vs_events", 1)
+	model := decodeContact(before)
+	for _, e := range evs {
+		if e.Type() == "contact_groups_changed" {
+			var ev map[string]any
+			d := json.NewDecoder(bytes.NewReader(marshalJSON(e)))
+			d.UseNumber()
+			d.Decode(&ev)
+			model = model.applyEvent(ev, "", nil)
+		}
+		switch e.Type() {
+		case "contact_field_changed", "contact_status_changed", "ticket_opened", "contact_urns_changed", "contact_name_changed", "contact_language_changed":
+			res.Count("route."+e.Type(), 1)
+		}
+	}
+	if fmt.Sprint(groupIDs(model)) != fmt.Sprint(groupIDs(decodeContact(after))) {
+		viol("C06|group-delta-not-reported", "net change of group membership made by modifiers.Apply differs from the net effect of its contact_groups_changed events", map[string]any{})
+	}
+	if fmt.Sprint(groupIDs(decodeContact(before))) != fmt.Sprint(groupIDs(decodeContact(after))) {
+		res.Count("seen.membership_changed", 1)
+		res.NonTrivial = true
+	}
+	return true
 }
